@@ -57,6 +57,7 @@ func runC03(c *Config, r *Report) {
 	c03R10(ic, r)
 	c03R11(ic, r)
 	c03R14(ic, r)
+	c03R15(ic, r)
 	c03R5(ic, r)
 	c03R6(ic, r)
 	c03R7(ic, r)
@@ -755,18 +756,58 @@ func c03R5(ic *IC, r *Report) {
 				okAll, why = false, "the reset condition "+types.ExprString(ifs.Cond)+" is not 'position == len(children)-1' (last spec of the declaration)"
 			}
 			condText = types.ExprString(ifs.Cond)
+			// iota counts specifications, not names: inside the loop over the names of a specification
+			// the update is guarded by a test of the last name (found D88: const ( j, k = iota, iota;
+			// l, m = iota, iota ) gave l == 2)
+			for i := len(path) - 1; i >= 0; i-- {
+				fs, isFor := path[i].(*ast.ForStmt)
+				if !isFor || fs.Cond == nil || !strings.Contains(types.ExprString(fs.Cond), "nleft") {
+					continue
+				}
+				var idx types.Object
+				if as, ok := fs.Init.(*ast.AssignStmt); ok && len(as.Lhs) == 1 {
+					if id := identOf(as.Lhs[0]); id != nil {
+						idx = ic.Info.ObjectOf(id)
+					}
+				}
+				lastName := false
+				for _, p2 := range path[i+1:] {
+					if g, ok := p2.(*ast.IfStmt); ok && idx != nil && strings.Contains(types.ExprString(g.Cond), "nleft") {
+						ast.Inspect(g.Cond, func(q ast.Node) bool {
+							if id, ok := q.(*ast.Ident); ok && ic.Info.ObjectOf(id) == idx {
+								lastName = true
+							}
+							return true
+						})
+					}
+				}
+				if !lastName {
+					okAll, why = false, "scope.iota is advanced inside the loop over the names of a specification ("+types.ExprString(fs.Cond)+") without a test of the last name: it counts names instead of specifications (const ( j, k = iota, iota; l, m = iota, iota ) gives l == 2)"
+				}
+				break
+			}
 			// every spec advances iota, also a blank one: inside the block holding the if/else
 			// no statement before it leaves the block (continue, return, goto, break)
 			for i := len(path) - 1; i > 0; i-- {
-				if path[i] != ast.Node(ifs) {
+				// every block from the if/else up to the loop over the names of the specification
+				if _, isFor := path[i].(*ast.ForStmt); isFor {
+					break
+				}
+				if _, isLit := path[i].(*ast.FuncLit); isLit {
+					break
+				}
+				if g, isIf := path[i].(*ast.IfStmt); isIf && strings.Contains(types.ExprString(g.Cond), "constDecl") {
+					break // the section executed for constant specifications only starts here
+				}
+				if path[i].Pos() > ifs.Pos() {
 					continue
 				}
 				blk, ok := path[i-1].(*ast.BlockStmt)
 				if !ok {
-					break
+					continue
 				}
 				for _, st := range blk.List {
-					if st == ast.Stmt(ifs) {
+					if st == path[i] {
 						break
 					}
 					depth := 0
@@ -793,7 +834,6 @@ func c03R5(ic *IC, r *Report) {
 					}
 					ast.Inspect(st, visit)
 				}
-				break
 			}
 		}
 		conds[name] = condText
